@@ -1,7 +1,7 @@
 (* Entry point of the extracted runner: [run fn arg].  The Python side finds function
    numbers by parsing the "(* FN name *)" comments below. *)
 From Coq Require Import ZArith List.
-From PyCraft Require Import Base.Res Base.Sx Model.VarInt Model.Versions Model.Position.
+From PyCraft Require Import Base.Res Base.Sx Model.VarInt Model.Versions Model.Position Model.SignedHex Model.Sha1.
 Import ListNotations.
 Open Scope Z_scope.
 
@@ -60,5 +60,11 @@ Definition run (fn : Z) (a : sx) : sx :=
       L (map (fun t => let x := sx_z (sx_nth t 0) in let y := sx_z (sx_nth t 1) in let z := sx_z (sx_nth t 2) in
                        let sid := sx_z (sx_nth t 3) in let w := rec_word x y z sid in let h := rec_hbyte x z in
                        L [I w; of_quad (rec_unword w); I h; L [I (fst (rec_unhbyte h)); I (snd (rec_unhbyte h))]]) (sx_list a))
+  | 30 => (* FN verification_hash : (server_id_codepoints secret key) *)
+      of_res of_zs (verification_hash (sx_zs (sx_nth a 0)) (sx_zs (sx_nth a 1)) (sx_zs (sx_nth a 2)))
+  | 31 => (* FN mc_hex : (digest) *)
+      of_zs (mc_hex (sx_zs (sx_nth a 0)))
+  | 32 => (* FN sha1 : (bytes) *)
+      of_zs (sha1 (sx_zs (sx_nth a 0)))
   | _ => L [I 99]
   end.
